@@ -470,6 +470,47 @@ def m_variable_nullability(p, rng):
     return _done(q, "incompatible-variable-type/nullable-for-non-null", site[4], f"{d.ident()}: ${n}: {type_str(isogen.strip_nn(vt))} used as {type_str(site[2])}")
 
 
+_DEFAULTS = {"Int": ("int", 2), "String": ("str", "dflt"), "Boolean": ("bool", True), "Float": ("int", 1), "ID": ("str", "i1")}
+
+
+def m_variable_nullable_with_default(p, rng):
+    """A client field's variable `$v: T = <non-null default>` used where T! is required, while a parent passes `null`
+    for it.  (For an OPERATION variable GraphQL lets a non-null default stand in for non-null; a client field's
+    variable is replaced by what the selecting field passes, so here a null reaches a non-null position.)"""
+    sites = []
+    for x in _var_sites(p):
+        di, vi, at, has_default, pos = x
+        d = p.decls[di]
+        n, vt, dv = d.variables[vi]
+        if nullable(at) or has_default or nullable(vt) or dv is not None or list_depth(vt) or base(vt) not in _DEFAULTS:
+            continue
+        if any(dd.kind == "entrypoint" and dd.ident() == d.ident() for dd in p.decls):
+            continue
+        parents = [(pd, s) for pd, s in selected_by(p, d.ident()) if "loadable" not in s.directives and any(a == n for a, _ in s.args)]
+        parents = [(pd, s) for pd, s in parents if removable_value(p, pd, dict(s.args)[n])]
+        if parents:
+            sites.append((di, vi, pos, n))
+    site = _pick(rng, sites)
+    if not site:
+        return None
+    q = _fork(p)
+    d = q.decls[site[0]]
+    n, vt, _dv = d.variables[site[1]]
+    d.variables[site[1]] = (n, isogen.strip_nn(vt), _DEFAULTS[base(vt)])
+    changed = 0
+    for pd, s in selected_by(q, d.ident()):
+        if "loadable" in s.directives:
+            continue
+        for i, (a, v) in enumerate(s.args):
+            if a == n and removable_value(q, pd, v):
+                s.args[i] = (a, ("null",))
+                changed += 1
+    if not changed:
+        return None
+    return _done(q, "incompatible-variable-type/nullable-with-default-for-non-null-and-parent-passes-null", site[2],
+                 f"{d.ident()}: ${n}: {type_str(isogen.strip_nn(vt))} = {isogen.iso_value(_DEFAULTS[base(vt)])} used as {type_str(vt)}; {changed} parent(s) pass null")
+
+
 def _unpassed(p, d, n):
     """No parent passes variable n of client field d (so changing its type creates no second fault)."""
     return all(all(a != n for a, _ in s.args) for _pd, s in selected_by(p, d.ident()))
@@ -537,7 +578,7 @@ FAULTS = [m_undefined_field, m_object_without_selection_set, m_scalar_with_selec
           m_undefined_argument_named_id, m_missing_required_argument_scalar, m_missing_required_argument_object,
           m_missing_required_argument_client, m_undeclared_variable, m_undeclared_variable_nested_in_object,
           m_unused_variable, m_unused_variable_named_like_elsewhere, m_undeclared_variable_declared_elsewhere, m_wrong_literal_type, m_null_for_non_null, m_wrong_type_inside_object_literal,
-          m_variable_nullability, m_variable_base_type, m_variable_list_depth, m_duplicate_response_name,
+          m_variable_nullability, m_variable_nullable_with_default, m_variable_base_type, m_variable_list_depth, m_duplicate_response_name,
           m_same_field_twice]
 
 
